@@ -29,6 +29,7 @@ type Program struct {
 	typesPkgs map[string]*types.Package
 	qualIndex map[string]*FuncContract
 	EdgeCovers bool
+	CurPkgPath string // package of the unit being generated
 }
 
 func loadProgram(root, modPath string, pkgPaths []string, tags string) (*Program, error) {
@@ -317,6 +318,12 @@ func (p *Program) ifaceContract(t types.Type, method string) *FuncContract {
 			}
 		}
 		sort.Strings(keys)
+		// a package's own view of the interface wins (ghost counters differ per package)
+		for _, k := range keys {
+			if p.CurPkgPath != "" && strings.HasPrefix(k, p.CurPkgPath+"::") {
+				return p.Contracts.Funcs[k]
+			}
+		}
 		if len(keys) > 0 {
 			return p.Contracts.Funcs[keys[0]]
 		}
